@@ -109,11 +109,13 @@ def process_chunk(args):
     import random as _random
     rr = _random.Random(f"{seed}:C01:oracle:{chunk_id}")
     lines, impls, metas = [], [], []
-    for c in cases:
+    for ci, c in enumerate(cases):
         cfg = {"keys": [c["key"]]}
         if c.get("acc"):
             cfg["acc"] = c["acc"]
         ops = [c["opstr"]] if "opstr" in c else [op_string(c)]
+        if ci % 2:
+            ops = session.alias_ops(ops, f"C01:{chunk_id}:{ci}")     # send_binary / send_bytes / send_text spellings
         extra = {}
         if "cfg" in c:
             cfg = c["cfg"]
